@@ -352,6 +352,8 @@ extern "C" void harness_idler()
         if (i > 0) ASSUME(T(((i - 1) >> 1) + 1)->ts_wakeup <= t->ts_wakeup);
         ASSUME(t->ts_wakeup > photon::now);
     }
+    ts_updater.store(1);                      // the clock is not refreshed by the idler itself during this round (a refresh that makes a sleeper due
+                                              // leads to the resume path = harness_resume, and the woken threads would have to run)
     uint64_t clk = photon::now;
     idler(nullptr);
     Eng& e = ENG.v;
